@@ -29,7 +29,7 @@ func init() {
 		Level: "exploration",
 		Rule: "each case runs one lease-service script (expiry, renewal errors for a TTL, manual demotion, handoff to a connected / unknown / disconnected node, non-candidate alone, cluster-ID mismatch / adoption, acquire errors, stale primary info, static leaser) against 1-3 real nodes wired to a scriptable lease service that keeps the ground truth and one global sequence counter; the node is probed from inside every lease-service call it makes (IsPrimary, a primary-scoped context created while primary) and from outside (stream requests, local commits); " +
 			"ordering rules over that sequence decide the verdict; distinct = (script, variant, observed call pattern) tuples",
-		Assumptions: []string{"lease TTL 0.3-3 s of real time (the code's 1 s retry constants are fixed); lateness can only shorten primacy, which no rule counts against the node", "Consul mapping (consul.Leaser against a fake Consul) is not covered by this check"},
+		Assumptions: []string{"lease TTL 0.3-3 s of real time (the code's 1 s retry constants are fixed); lateness can only shorten primacy, which no rule counts against the node", "LiteFS's Consul leaser is exercised against a fake Consul endpoint backed by the same lease service (every fourth variant and half of the refused-take-over family); no real Consul agent is available in this sandbox"},
 		NumCases: func(tier string) int {
 			if tier == "thorough" {
 				return len(c08Scripts) * 40
